@@ -80,8 +80,20 @@ def fact_body_WithFilter : List String := [
 def fact_body_channelHandlers_shutdown : List String := [
     "{ var v1 sync.WaitGroup for _, v2 := range h { v1.Add(1) go func(v3 chan struct{}) { <-v3 v1.Done() }(v2) } v1.Wait() }"]
 
+def fact_body_detectBracketedPaste : List String := [
+    "{ const bpStart = \"\\x1b[200~\" if len(a1) < len(bpStart) || string(a1[:len(bpStart)]) != bpStart { return false, 0, nil } a1 = a1[len(bpStart):] const bpEnd = \"\\x1b[201~\" v1 := bytes.Index(a1, []byte(bpEnd)) v2 := len(bpStart) + v1 + len(bpEnd) if v1 == -1 { return true, 0, nil } v3 := a1[:v1] v4 := Key{Type: KeyRunes, Paste: true} for len(v3) > 0 { v5, v6 := utf8.DecodeRune(v3) if v5 != utf8.RuneError { v4.Runes = append(v4.Runes, v5) } v3 = v3[v6:] } return true, v2, KeyMsg(v4) }"]
+
+def fact_body_detectOneMsg : List String := [
+    "{ if a2 && isIncompleteEvent(a1) { return 0, nil } const mouseEventX10Len = 6 if len(a1) >= mouseEventX10Len && a1[0] == '\\x1b' && a1[1] == '[' { switch a1[2] { case 'M': return mouseEventX10Len, MouseMsg(parseX10MouseEvent(a1)) case '<': if v1 := mouseSGRRegex.FindSubmatchIndex(a1[3:]); v1 != nil { v2 := v1[1] + 3 return v2, MouseMsg(parseSGRMouseEvent(a1)) } } } var v3 bool v3, o1, o2 = detectReportFocus(a1) if v3 { return o1, o2 } var v4 bool v4, o1, o2 = detectBracketedPaste(a1) if v4 { return o1, o2 } var v5 bool v5, o1, o2 = detectSequence(a1) if v5 { return o1, o2 } v6 := false v7 := 0 if a1[0] == '\\x1b' { v6 = true v7++ } if v7 < len(a1) && a1[v7] == 0 { return v7 + 1, KeyMsg{Type: keyNUL, Alt: v6} } var v8 []rune for v9 := 0; v7 < len(a1); v7 += v9 { var v10 rune v10, v9 = utf8.DecodeRune(a1[v7:]) if v10 == utf8.RuneError && a2 && !utf8.FullRune(a1[v7:]) { return 0, nil } if v10 == utf8.RuneError || v10 <= rune(keyUS) || v10 == rune(keyDEL) || v10 == ' ' { break } v8 = append(v8, v10) if v6 { v7 += v9 break } } if v7 >= len(a1) && a2 { return 0, nil } if len(v8) > 0 { v11 := Key{Type: KeyRunes, Runes: v8, Alt: v6} if len(v8) == 1 && v8[0] == ' ' { v11.Type = KeySpace } return v7, KeyMsg(v11) } if v6 && len(a1) == 1 { return 1, KeyMsg(Key{Type: KeyEscape}) } return 1, unknownInputByteMsg(a1[0]) }"]
+
 def fact_body_detectReportFocus : List String := [
     "{ switch { case bytes.Equal(a1, []byte(\"\\x1b[I\")): return true, 3, FocusMsg{} case bytes.Equal(a1, []byte(\"\\x1b[O\")): return true, 3, BlurMsg{} } return false, 0, nil }"]
+
+def fact_body_detectSequence : List String := [
+    "{ v1 := extSequences for _, v2 := range seqLengths { if v2 > len(a1) { continue } v3 := a1[:v2] v4, v5 := v1[string(v3)] if v5 { return true, v2, KeyMsg(v4) } } if v6 := unknownCSIRe.FindIndex(a1); v6 != nil { return true, v6[1], unknownCSISequenceMsg(append([]byte(nil), a1[:v6[1]]...)) } return false, 0, nil }"]
+
+def fact_body_isIncompleteEvent : List String := [
+    "{ if len(a1) == 0 || a1[0] != '\\x1b' { return false } if _, v1 := extSequencePrefixes[string(a1)]; v1 { return true } if len(a1) < 2 || a1[1] != '[' { return false } if v2, _, _ := detectReportFocus(a1); v2 { return true } if len(a1) >= 3 && a1[2] == 'M' { return len(a1) < 6 } v3 := 2 for v3 < len(a1) && a1[v3] >= 0x30 && a1[v3] <= 0x3f { v3++ } for v3 < len(a1) && a1[v3] >= 0x20 && a1[v3] <= 0x2f { v3++ } return v3 == len(a1) }"]
 
 def fact_body_newRenderer : List String := [
     "{ if a3 < 1 { a3 = defaultFPS } else if a3 > maxFPS { a3 = maxFPS } v1 := &standardRenderer{ a1: a1, mtx: &sync.Mutex{}, done: make(chan struct{}), framerate: time.Second / time.Duration(a3), a2: a2, queuedMessageLines: []string{}, } if v1.useANSICompressor { v1.out = &compressor.Writer{Forward: a1} } return v1 }"]
@@ -95,20 +107,53 @@ def fact_body_osExecCommand_SetStdin : List String := [
 def fact_body_osExecCommand_SetStdout : List String := [
     "{ if c.Stdout == nil { c.Stdout = a1 } }"]
 
+def fact_body_parseMouseButton : List String := [
+    "{ var v1 MouseEvent v2 := a1 if !a2 { v2 -= x10MouseByteOffset } const ( bitShift = 0b0000_0100 bitAlt = 0b0000_1000 bitCtrl = 0b0001_0000 bitMotion = 0b0010_0000 bitWheel = 0b0100_0000 bitAdd = 0b1000_0000 bitsMask = 0b0000_0011 ) if v2&bitAdd != 0 { v1.Button = MouseButtonBackward + MouseButton(v2&bitsMask) } else if v2&bitWheel != 0 { v1.Button = MouseButtonWheelUp + MouseButton(v2&bitsMask) } else { v1.Button = MouseButtonLeft + MouseButton(v2&bitsMask) if v2&bitsMask == bitsMask { v1.Action = MouseActionRelease v1.Button = MouseButtonNone } } if v2&bitMotion != 0 && !v1.IsWheel() { v1.Action = MouseActionMotion } v1.Alt = v2&bitAlt != 0 v1.Ctrl = v2&bitCtrl != 0 v1.Shift = v2&bitShift != 0 switch { case v1.Button == MouseButtonLeft && v1.Action == MouseActionPress: v1.Type = MouseLeft case v1.Button == MouseButtonMiddle && v1.Action == MouseActionPress: v1.Type = MouseMiddle case v1.Button == MouseButtonRight && v1.Action == MouseActionPress: v1.Type = MouseRight case v1.Button == MouseButtonNone && v1.Action == MouseActionRelease: v1.Type = MouseRelease case v1.Button == MouseButtonWheelUp && v1.Action == MouseActionPress: v1.Type = MouseWheelUp case v1.Button == MouseButtonWheelDown && v1.Action == MouseActionPress: v1.Type = MouseWheelDown case v1.Button == MouseButtonWheelLeft && v1.Action == MouseActionPress: v1.Type = MouseWheelLeft case v1.Button == MouseButtonWheelRight && v1.Action == MouseActionPress: v1.Type = MouseWheelRight case v1.Button == MouseButtonBackward && v1.Action == MouseActionPress: v1.Type = MouseBackward case v1.Button == MouseButtonForward && v1.Action == MouseActionPress: v1.Type = MouseForward case v1.Action == MouseActionMotion: v1.Type = MouseMotion switch v1.Button { case MouseButtonLeft: v1.Type = MouseLeft case MouseButtonMiddle: v1.Type = MouseMiddle case MouseButtonRight: v1.Type = MouseRight case MouseButtonBackward: v1.Type = MouseBackward case MouseButtonForward: v1.Type = MouseForward } default: v1.Type = MouseUnknown } return v1 }"]
+
+def fact_body_parseSGRMouseEvent : List String := [
+    "{ v1 := string(a1[3:]) v2 := mouseSGRRegex.FindStringSubmatch(v1) if len(v2) != 5 { panic(\"invalid mouse event\") } v3, _ := strconv.Atoi(v2[1]) v4 := v2[2] v5 := v2[3] v6 := v2[4] == \"m\" v7 := parseMouseButton(v3, true) if v7.Action != MouseActionMotion && !v7.IsWheel() && v6 { v7.Action = MouseActionRelease v7.Type = MouseRelease } v8, _ := strconv.Atoi(v4) v9, _ := strconv.Atoi(v5) v7.X = v8 - 1 v7.Y = v9 - 1 return v7 }"]
+
+def fact_body_parseX10MouseEvent : List String := [
+    "{ v1 := a1[3:6] v2 := parseMouseButton(int(v1[0]), false) v2.X = int(v1[1]) - x10MouseByteOffset - 1 v2.Y = int(v1[2]) - x10MouseByteOffset - 1 return v2 }"]
+
+def fact_body_readAnsiInputs : List String := [
+    "{ var v1 [256]byte var v2 []byte var v3 error loop: for { var v4 int v5 := v3 if v5 == nil { v4, v5 = a3.Read(v1[:]) } if v5 != nil && v4 > 0 { v3, v5 = v5, nil } if v5 != nil { if errors.Is(v5, io.EOF) { for v6 := v2; len(v6) > 0; { v7, v8 := detectOneMsg(v6, false) if v7 == 0 { break } select { case a2 <- v8: case <-a1.Done(): return fmt.Errorf(\"found context error while reading input: %w\", a1.Err()) } v6 = v6[v7:] } } return fmt.Errorf(\"error reading input: %w\", v5) } v9 := v1[:v4] if v2 != nil { v9 = append(v2, v9...) } v10 := v4 == len(v1) && v3 == nil var v11, v12 int for v11, v12 = 0, 0; v11 < len(v9); v11 += v12 { var v13 Msg v12, v13 = detectOneMsg(v9[v11:], v10) if v12 == 0 { v2 = make([]byte, 0, len(v9[v11:])+len(v1)) v2 = append(v2, v9[v11:]...) continue loop } select { case a2 <- v13: case <-a1.Done(): v14 := a1.Err() if v14 != nil { v14 = fmt.Errorf(\"found context error while reading input: %w\", v14) } return v14 } } v2 = nil } }"]
+
+def fact_body_standardRenderer_clearScreen : List String := [
+    "{ r.mtx.Lock() defer r.mtx.Unlock() r.execute(ansi.EraseEntireScreen) r.execute(ansi.CursorHomePosition) r.repaint() }"]
+
+def fact_body_standardRenderer_enterAltScreen : List String := [
+    "{ r.mtx.Lock() defer r.mtx.Unlock() if r.altScreenActive { return } if len(r.queuedMessageLines) > 0 { r.render() } r.altScreenActive = true r.execute(ansi.SetAltScreenSaveCursorMode) r.execute(ansi.EraseEntireScreen) r.execute(ansi.CursorHomePosition) if r.cursorHidden { r.execute(ansi.HideCursor) } else { r.execute(ansi.ShowCursor) } r.altLinesRendered = 0 r.repaint() }"]
+
+def fact_body_standardRenderer_exitAltScreen : List String := [
+    "{ r.mtx.Lock() defer r.mtx.Unlock() if !r.altScreenActive { return } r.altScreenActive = false r.execute(ansi.ResetAltScreenSaveCursorMode) if r.cursorHidden { r.execute(ansi.HideCursor) } else { r.execute(ansi.ShowCursor) } r.repaint() }"]
+
+def fact_body_standardRenderer_flush : List String := [
+    "{ r.mtx.Lock() defer r.mtx.Unlock() r.render() }"]
+
 def fact_body_standardRenderer_halt : List String := [
     "{ r.listenMtx.Lock() defer r.listenMtx.Unlock() if !r.listening { return } r.done <- struct{}{} r.listening = false }"]
 
 def fact_body_standardRenderer_handleMessages : List String := [
     "{ switch v1 := a1.(type) { case repaintMsg: r.mtx.Lock() r.repaint() r.mtx.Unlock() case WindowSizeMsg: r.mtx.Lock() r.width = v1.Width r.height = v1.Height r.repaint() r.mtx.Unlock() case clearScrollAreaMsg: r.clearIgnoredLines() r.mtx.Lock() r.repaint() r.mtx.Unlock() case syncScrollAreaMsg: r.clearIgnoredLines() r.setIgnoredLines(v1.topBoundary, v1.bottomBoundary) r.insertTop(v1.lines, v1.topBoundary, v1.bottomBoundary) r.mtx.Lock() r.repaint() r.mtx.Unlock() case scrollUpMsg: r.insertTop(v1.lines, v1.topBoundary, v1.bottomBoundary) case scrollDownMsg: r.insertBottom(v1.lines, v1.topBoundary, v1.bottomBoundary) case printLineMessage: if !r.altScreenActive { v2 := strings.Split(v1.messageBody, \"\\n\") r.mtx.Lock() r.queuedMessageLines = append(r.queuedMessageLines, v2...) r.repaint() r.mtx.Unlock() } } }"]
 
+def fact_body_standardRenderer_kill : List String := [
+    "{ r.halt() r.mtx.Lock() defer r.mtx.Unlock() r.execute(ansi.EraseEntireLine) r.execute(\"\\r\") r.repaint() }"]
+
 def fact_body_standardRenderer_listen : List String := [
     "{ for { select { case <-r.done: r.ticker.Stop() return case <-r.ticker.C: r.flush() } } }"]
+
+def fact_body_standardRenderer_render : List String := [
+    "{ if r.buf.Len() == 0 || r.buf.String() == r.lastRender { return } v1 := &bytes.Buffer{} if r.altScreenActive { v1.WriteString(ansi.CursorHomePosition) } else if r.linesRendered > 1 { v1.WriteString(ansi.CursorUp(r.linesRendered - 1)) } v2 := strings.Split(r.buf.String(), \"\\n\") if r.height > 0 && len(v2) > r.height { v2 = v2[len(v2)-r.height:] } v3 := len(r.queuedMessageLines) > 0 && !r.altScreenActive if v3 { for _, v4 := range r.queuedMessageLines { if v5 := ansi.StringWidth(v4); r.width > 0 && (v5 == 0 || v5%r.width != 0) { v4 = v4 + ansi.EraseLineRight } _, _ = v1.WriteString(v4) _, _ = v1.WriteString(\"\\r\\n\") } r.queuedMessageLines = []string{} } v6 := r.lastLinesRendered() > len(v2) v7 := false for v8 := 0; v8 < len(v2); v8++ { v9 := v6 && v8 == len(v2)-1 v10 := !v3 && !v9 && len(r.lastRenderedLines) > v8 && r.lastRenderedLines[v8] == v2[v8] if _, v11 := r.ignoreLines[v8]; v11 || v10 { if v8 < len(v2)-1 { v1.WriteByte('\\n') } continue } if v8 == 0 && r.lastRender == \"\" { v1.WriteByte('\\r') } if v9 { v1.WriteString(ansi.EraseScreenBelow) v7 = true } v12 := v2[v8] if r.width > 0 { v12 = ansi.Truncate(v12, r.width, \"\") } if ansi.StringWidth(v12) < r.width { v12 = v12 + ansi.EraseLineRight } _, _ = v1.WriteString(v12) if v8 < len(v2)-1 { _, _ = v1.WriteString(\"\\r\\n\") } } if v6 && !v7 { v1.WriteString(ansi.EraseScreenBelow) } if r.altScreenActive { r.altLinesRendered = len(v2) } else { r.linesRendered = len(v2) } if r.altScreenActive { v1.WriteString(ansi.CursorPosition(0, len(v2))) } else { v1.WriteString(ansi.CursorBackward(r.width)) } _, _ = r.out.Write(v1.Bytes()) r.lastRender = r.buf.String() r.lastRenderedLines = v2 r.buf.Reset() }"]
 
 def fact_body_standardRenderer_repaint : List String := [
     "{ r.lastRender = \"\" r.lastRenderedLines = nil }"]
 
 def fact_body_standardRenderer_start : List String := [
     "{ r.listenMtx.Lock() defer r.listenMtx.Unlock() if r.ticker == nil { r.ticker = time.NewTicker(r.framerate) } else { r.ticker.Reset(r.framerate) } if r.listening { return } r.listening = true go r.listen() }"]
+
+def fact_body_standardRenderer_stop : List String := [
+    "{ r.halt() r.flush() r.mtx.Lock() defer r.mtx.Unlock() r.execute(ansi.EraseEntireLine) r.execute(\"\\r\") r.repaint() if r.useANSICompressor { if v1, v2 := r.out.(io.WriteCloser); v2 { _ = v1.Close() } } }"]
 
 def fact_body_standardRenderer_write : List String := [
     "{ r.mtx.Lock() defer r.mtx.Unlock() r.buf.Reset() if a1 == \"\" { a1 = \" \" } _, _ = r.buf.WriteString(a1) }"]
